@@ -68,6 +68,13 @@ def run(ctx):
         for r in results:
             for d in r.get("strict_deviations") or []:
                 dev[d["class"]] = dev.get(d["class"], 0) + 1
+        if dev and os.environ.get("C13_STRICT_CODES"):
+            # opt-in (mutant demonstrations only): the exact code is not part of the property and an unlocked reader racing
+            # with closeConnection's two table writes can legitimately see BADCONN where the model says BADIP/BADUSER
+            for r in results:
+                for d in r.get("strict_deviations") or []:
+                    agg["violations"].append(("history:error-code-deviation:" + d["class"], r.get("case"),
+                                              dict(history=os.path.basename(r.get("file", "")), slot=d["slot"], operations=d["ops"]), "porcheck"))
         if dev:
             # which of BADIP/BADUSER/BADCONN a rejection carries is not part of the property: diagnostic only
             agg["sets"].setdefault("porcupine_error_code_deviations(diagnostic, not a verdict)", set()).update("%s x%d" % kv for kv in dev.items())
